@@ -29,8 +29,12 @@ func call(overrideFN *string, namespace types.EnvType, fIn types.MalType, args .
 	var functionName string
 	if overrideFN != nil {
 		functionName = *overrideFN
-		m := strings.LastIndex(packageName, ".")
-		functionFullName = fmt.Sprintf("%s[%s]", packageName[:m], *overrideFN)
+		if m := strings.LastIndex(packageName, "."); m >= 0 {
+			// function literals are named <package>.<enclosing function>.funcN
+			functionFullName = fmt.Sprintf("%s[%s]", packageName[:m], *overrideFN)
+		} else {
+			functionFullName = fmt.Sprintf("%s[%s]", packageName, *overrideFN)
+		}
 	} else {
 		functionName = strings.Replace(functionFullName[n+1:], "_", "-", -1)
 		functionFullName = fmt.Sprintf("%s[%s]", packageName, functionName)
